@@ -1227,7 +1227,7 @@ pub fn dump_trace(run: &RingRun, last: usize) {
 }
 
 pub fn c01(ctx: &mut Ctx) {
-    run_ring_prop(ctx, "C01", 4000, 400_000, 2);
+    run_ring_prop(ctx, "C01", 4000, 160_000, 2);
 }
 
 pub fn c02(ctx: &mut Ctx) {
